@@ -76,6 +76,9 @@ def build_server(ctx, probe, cfg, allresolvers=True, race=False, extra_yml=""):
     for f in os.listdir(probe_dir):
         if f.endswith(".graphql") or f.endswith(".go"):
             shutil.copy(os.path.join(probe_dir, f), d)
+        elif f.endswith(".go.tmpl"):
+            # hand-written helper types of the probe; the package name differs per configuration
+            open(os.path.join(d, f[:-5]), "w").write(open(os.path.join(probe_dir, f)).read().replace("PKGNAME", pkg))
     ex, extra = CONFIGS[cfg]
     open(os.path.join(d, "gqlgen.yml"), "w").write(
         BASE_YML.format(exec=ex.format(pkg=pkg), extra=extra + "\n" + extra_yml))
